@@ -113,23 +113,50 @@ theorem applyEv_unchanged (eps : List Addr) (ev : WEv) (h : (applyEv eps ev).2 =
   | put k => unfold applyEv at *; by_cases hk : k ∈ eps <;> simp_all
   | del k => unfold applyEv at *; by_cases hk : k ∈ eps <;> simp_all
 
-/-- the last snapshot the stream has emitted (the initial one included) is its current set -/
-theorem emitted_last (eps : List Addr) (evs : List WEv) :
-    (eps :: emitted eps evs).getLast? = some (applyAll eps evs) := by
-  induction evs generalizing eps with
-  | nil => simp [emitted, applyAll]
+theorem applyResp_fold (eps : List Addr) (c : Bool) (resp : List WEv) :
+    (resp.foldl (fun acc ev => let r := applyEv acc.1 ev; (r.1, acc.2 || r.2)) (eps, c)).1 = applyAll eps resp ∧
+    ((resp.foldl (fun acc ev => let r := applyEv acc.1 ev; (r.1, acc.2 || r.2)) (eps, c)).2 = false →
+      c = false ∧ applyAll eps resp = eps) := by
+  induction resp generalizing eps c with
+  | nil => simp [applyAll]
   | cons ev rest ih =>
+    simp only [List.foldl_cons]
     have hstep : applyAll eps (ev :: rest) = applyAll (applyEv eps ev).1 rest := rfl
-    rw [hstep, ← ih (applyEv eps ev).1]
-    have hem : emitted eps (ev :: rest) = if (applyEv eps ev).2 then (applyEv eps ev).1 :: emitted (applyEv eps ev).1 rest
-        else emitted (applyEv eps ev).1 rest := rfl
-    rw [hem]
-    by_cases hc : (applyEv eps ev).2 = true
+    obtain ⟨h1, h2⟩ := ih (applyEv eps ev).1 (c || (applyEv eps ev).2)
+    refine ⟨by rw [hstep]; exact h1, ?_⟩
+    intro hf
+    obtain ⟨hc, hs⟩ := h2 hf
+    have hc1 : c = false := by cases c <;> simp_all
+    have hc2 : (applyEv eps ev).2 = false := by cases h : (applyEv eps ev).2 <;> simp_all
+    refine ⟨hc1, ?_⟩
+    rw [hstep, hs, applyEv_unchanged eps ev hc2]
+
+/-- a response updates the set by all its events; if it reports "unchanged" the set is unchanged -/
+theorem applyResp_spec (eps : List Addr) (resp : List WEv) :
+    (applyResp eps resp).1 = applyAll eps resp ∧ ((applyResp eps resp).2 = false → applyAll eps resp = eps) := by
+  obtain ⟨h1, h2⟩ := applyResp_fold eps false resp
+  exact ⟨h1, fun h => (h2 h).2⟩
+
+theorem applyAll_append (eps : List Addr) (a b : List WEv) : applyAll eps (a ++ b) = applyAll (applyAll eps a) b := by
+  simp [applyAll, List.foldl_append]
+
+/-- the last snapshot the stream has sent (the initial one included) is its current set, whatever
+the grouping of the events into watch responses -/
+theorem emitted_last (eps : List Addr) (resps : List (List WEv)) :
+    (eps :: emitted eps resps).getLast? = some (applyAll eps resps.flatten) := by
+  induction resps generalizing eps with
+  | nil => simp [emitted, applyAll]
+  | cons resp rest ih =>
+    obtain ⟨h1, h2⟩ := applyResp_spec eps resp
+    have hem : emitted eps (resp :: rest) = if (applyResp eps resp).2 then (applyResp eps resp).1 :: emitted (applyResp eps resp).1 rest
+        else emitted (applyResp eps resp).1 rest := rfl
+    rw [List.flatten_cons, applyAll_append, hem, ← h1, ← ih (applyResp eps resp).1]
+    by_cases hc : (applyResp eps resp).2 = true
     · simp only [hc, if_true]
       rw [List.getLast?_cons_cons]
-    · have hc' : (applyEv eps ev).2 = false := by simpa using hc
+    · have hc' : (applyResp eps resp).2 = false := by simpa using hc
       simp only [hc', Bool.false_eq_true, if_false]
-      rw [applyEv_unchanged eps ev hc']
+      rw [h1, h2 hc']
 
 /-- dispatch never changes who is receiving / cancelled -/
 theorem dispatch_flags (status : List Addr) (subs : List Sub) :
